@@ -276,7 +276,11 @@ def trust_rules(fb, ctx):
             for v in hirq.pat_variants(arm["pat"]):
                 adds = [estr(c["args"][0]) for c in find_all(arm["body"], lambda z: z.get("k") == "mcall" and z.get("name") in ("insert", "extend"))]
                 guards = [estr(i["cond"]) for i in find_all(arm["body"], lambda z: z.get("k") == "if")]
-                tab[(v or "").split("::")[-1]] = (adds, guards)
+                if arm.get("guard") is not None and adds:
+                    guards.append(estr(arm["guard"]))        # `Scope::Previous if current != MAX => ..` is the same guard
+                name_ = (v or "").split("::")[-1]
+                prev_ = tab.get(name_, ([], []))
+                tab[name_] = (prev_[0] + adds, prev_[1] + guards)   # several arms for one variant (guarded + fallthrough) add up
     okA = tab.get("Authority") == (["0"], [])
     prev = tab.get("Previous", ([], []))
     okP = len(prev[0]) == 1 and re.sub(r"\s", "", prev[0][0]) in (f"Range{{start:0,end:({p_cur}Add1)}}",) and len(prev[1]) == 1 and re.search(rf"\({p_cur} Ne (usize::)?MAX\)", prev[1][0]) is not None
@@ -305,6 +309,17 @@ def trust_rules(fb, ctx):
     iparams = [p.get("name") for p in ih["params"]]
     flt = [i for i in find_all(ih["body"], lambda z: z.get("k") == "if") if mcalls(i["cond"], r"TrustedOrigins::contains$")]
     ok3 = len(flt) == 1 and is_local(strip(strip(flt[0]["cond"])["recv"]), iparams[1]) and (hirq.ctor_name(strip(hirq.tail(flt[0]["then"]))) or "").endswith("Some") and (strip(hirq.tail(flt[0]["else"])).get("res", {}).get("path") or "").endswith("None")
+    if not ok3 and not flt:
+        # equivalent form: `.filter(|(ids, _)| block_ids.contains(ids))` - the trust test is the whole predicate of a filter adaptor
+        fl = [m_ for m_ in find_all(ih["body"], lambda z: z.get("k") == "mcall" and z.get("name") == "filter" and z.get("args"))]
+        preds = []
+        for m_ in fl:
+            cl = strip(m_["args"][0])
+            if isinstance(cl, dict) and cl.get("k") == "closure":
+                t_ = strip(hirq.tail(cl["body"]))
+                if hirq.calls_path(t_, r"TrustedOrigins::contains$") and is_local(strip(t_["recv"]), iparams[1]):
+                    preds.append(m_)
+        ok3 = len(preds) == 1 and len(mcalls(ih["body"], r"TrustedOrigins::contains$")) == 1
     ctx.check(ok3, "VISIBLE", "FactSet::iterator keeps exactly the origins the scope contains", "VISIBLE|iterator", "`if block_ids.contains(ids) { Some(..) } else { None }` not found", f"{ib['file']}:{ib['line']}")
     evals = [D + "::World::run_with_limits", D + "::World::query_rule", D + "::Rule::find_match", D + "::Rule::check_match_all", D + "::Rule::apply", "<datalog::CombineIt<'a, IT> as std::iter::Iterator>::next"]
     for fn in evals:
